@@ -62,6 +62,7 @@ def main():
     # the warm-up is ordinary sequential use of the library (a few evaluations on each back end, a
     # collection): a process that dies by a signal in it is journalled like a crash inside a run
     phase("warmup")
+    t_boot = time.time()
     try:
         eng.boot(cfg)
     except BaseException as e:
@@ -105,13 +106,16 @@ def main():
     from .workload import derive_seed
 
     w, nw = cfg["w"], cfg["nw"]
-    deadline = cfg["deadline"]
+    # the budget counts from the moment the worker is ready: on a loaded machine the warm-up alone
+    # (C compilations) can outlast a short budget, and a batch without a single run is a harness error
+    boot_s = min(300.0, time.time() - t_boot)
+    deadline = cfg["deadline"] + boot_s
     max_runs = cfg.get("max_runs", 1 << 60)
     # deterministic floor: every index below min_index is run even if the wall budget is over (a
     # loaded machine must not shrink the explored seed set below what the check is known to need),
     # but never beyond hard_deadline
     min_index = cfg.get("min_index", 0)
-    hard_deadline = cfg.get("hard_deadline", deadline)
+    hard_deadline = cfg.get("hard_deadline", cfg["deadline"]) + boot_s
     i = cfg.get("start", 0)
     runs = 0
     only = cfg.get("only")
